@@ -315,6 +315,9 @@ def _flush(ck, P, cfg):
     else:
         ck.violated("C20.4", "flush-then-zero", f.where, "stats_on_gvt does not write the whole per-thread record before zeroing it", cfg)
     w = P.fn("parallel_thread_run")
+    for cand in Q.with_helpers(P, w):
+        if list(cand.calls("auto_ckpt_on_gvt")) and list(cand.calls("stats_on_gvt")):
+            w = cand
     a = list(w.calls("auto_ckpt_on_gvt"))
     s = list(w.calls("stats_on_gvt"))
     if len(a) == 1 and len(s) == 1 and w.cfg.dominates(a[0], s[0]):
@@ -355,16 +358,22 @@ def _dep_names(f, core):
 
 
 def _parity(ck, P, cfg):
-    f = P.fn("stats_on_gvt")
-    wr = [c for c in f.calls("file_write_chunk") if "stats_cur" in X.show(X.callee_args(c)[1])]
-    nd = [c for c in f.calls("file_write_chunk") if "node" in X.show(X.callee_args(c)[0])]
+    f0 = P.fn("stats_on_gvt")
+    fam = Q.with_helpers(P, f0)
+    wr = [(g, c) for g in fam for c in g.calls("file_write_chunk") if "stats_cur" in X.show(X.callee_args(c)[1])]
+    nd = [(g, c) for g in fam for c in g.calls("file_write_chunk") if "node" in X.show(X.callee_args(c)[0])]
     ck.expect("C20.7", len(wr) + len(nd), 2, "record writes in stats_on_gvt")
     for inst, calls, allowed, what in (("thread-record-always", wr, {"global_config", "stats_file"}, "the per-thread record"),
                                        ("node-record-per-rank", nd, {"global_config", "stats_file", "rid"}, "the node record")):
-        for c in calls:
+        for f, c in calls:
             extra = None
-            for core, B in Q.deciding_branches(f, c):
-                names = _dep_names(f, core)
+            deciders = [(f, core) for core, B in Q.deciding_branches(f, c)]
+            if f is not f0:
+                # written in a helper extracted from stats_on_gvt: what decides the helper's call decides the write
+                for hc in f0.calls(f.name):
+                    deciders += [(f0, core) for core, B in Q.deciding_branches(f0, hc)]
+            for df, core in deciders:
+                names = _dep_names(df, core)
                 if names - allowed:
                     extra = (core, sorted(names - allowed))
             if extra:
@@ -377,6 +386,9 @@ def _parity(ck, P, cfg):
 def _node_record_value(ck, P, cfg):
     """The node record of a round carries that round's GVT (the file 'lists non-decreasing GVT values')."""
     f = P.fn("stats_on_gvt")
+    for cand in Q.with_helpers(P, f):
+        if any(v.k == "VarDecl" and "stats_node" in (v.t or "") and v.sc == "local" for v in cand.walk()):
+            f = cand
     inst = "node-record-gvt"
     par = f.params[0]["name"] if f.params else None
     rec = P.record("stats_node")
@@ -468,7 +480,13 @@ def _rounds(ck, P, cfg):
         label = "%s:%s" % (f.name, "worker-loop" if f.name == "parallel_thread_run" else ("pre-barrier-flush" if not any(g.dominates(b, c) for b in f.calls("sync_thread_barrier")) else "post-barrier-rounds"))
         inst = "swallowed-round@%s" % label
         if f.name == "parallel_thread_run":
-            if kind == "var" and any(X.show(X.callee_args(s)[0]) == dst.name for s in f.calls("stats_on_gvt")):
+            direct = kind == "var" and any(X.show(X.callee_args(s)[0]) == dst.name for s in f.calls("stats_on_gvt"))
+            through = False
+            for h in Q.with_helpers(P, f)[1:]:
+                if len(h.params) == 1 and any(X.show(X.callee_args(s2)[0]) == h.params[0]["name"] for s2 in h.calls("stats_on_gvt")):
+                    if kind == "var" and any(X.callee_args(c2) and X.show(X.callee_args(c2)[0]) == dst.name for c2 in f.calls(h.name)):
+                        through = True
+            if direct or through:
                 ck.holds("C20.5", inst, c.where, "result forwarded to stats_on_gvt (one record per thread per round)", cfg)
             else:
                 ck.violated("C20.5", inst, c.where, "the worker loop does not hand completed rounds to stats_on_gvt", cfg)
